@@ -49,6 +49,12 @@ impl Net {
         self.conns.lock().unwrap().push(h.clone());
         Ok((c, h))
     }
+    /// The listener reports a (non-fatal for the server) accept error, e.g. EMFILE.
+    pub fn inject_accept_error(&self, kind: io::ErrorKind) {
+        if let Some(tx) = self.tx.lock().unwrap().as_ref() {
+            let _ = tx.send(Err(io::Error::new(kind, "injected accept error")));
+        }
+    }
     /// Stops offering connections (the incoming stream ends).
     pub fn close_listener(&self) {
         self.tx.lock().unwrap().take();
